@@ -338,7 +338,7 @@ def run_query(work, q, kf_open, seed=0, do_selfcheck=True):
     if q.kf_only: defs['KF_ONLY_' + q.kf_only.replace('-', '_')] = 1
     r = {'query': q.name, 'harness': q.harness, 'entry': q.entry, 'defs': {k: str(v) for k, v in defs.items()}, 'mode': q.mode,
          'backend': q.backend, 'stubs': q.stubs, 'kf_only': q.kf_only, 'kf_excl': [k for k in q.kf_excl if k in kf_open],
-         'note': q.note}
+         'note': q.note, 'cflags': list(q.cflags), 'replay_spec': (list(q.replay) if isinstance(q.replay, (tuple, list)) else q.replay), 'leak': q.leak}
     def done(verdict, why=''):
         r['verdict'] = verdict; r['why'] = why; r['wall_s'] = round(time.time() - t0, 2)
         return r
@@ -498,6 +498,8 @@ def run_property(pid, queries, meta, tier, seed, jobs=None):
             if r.get('tape') is not None:
                 with open(dst, 'w') as f:
                     f.write('# property=%s query=%s harness=%s entry=%s defs=%s\n' % (pid, r['query'], r['harness'], r['entry'], json.dumps(r['defs'])))
+                    f.write('# meta=%s\n' % json.dumps({'harness': r['harness'], 'entry': r['entry'], 'defs': r['defs'], 'cflags': r.get('cflags', []),
+                                                       'replay': r.get('replay_spec'), 'leak': r.get('leak', False)}))
                     f.write('# failed: %s\n' % r['why'])
                     for w, v in r['tape']: f.write('%d %d\n' % (w, v))
             print('VIOLATION property=%s replay=%s' % (pid, dst))
@@ -545,5 +547,28 @@ def run_property(pid, queries, meta, tier, seed, jobs=None):
         print('%s tier=%s: %d queries: %d proved, %d known-finding, %d violation, %d undecided; %.0fs' %
               (pid, tier, len(results), len(proved), len(known), len(violations), len(undecided), wall))
         return 1 if violations else 0
+    finally:
+        work.cleanup()
+
+
+def replay_file(pid, path):
+    """./check <prop> --replay <tape>: rebuild the native twin of the recorded harness from /repo's current tree and run the tape"""
+    meta = None; tape = []
+    for l in open(path):
+        if l.startswith('# meta='): meta = json.loads(l[len('# meta='):])
+        elif l.startswith('#') or not l.strip(): continue
+        else:
+            w, v = l.split(); tape.append((int(w), int(v)))
+    if meta is None:
+        print('tape has no meta header'); return 2
+    work = Work()
+    try:
+        q = Query('replay', meta['harness'], meta['entry'], meta['defs'], cflags=meta.get('cflags', []), leak=meta.get('leak', False),
+                  replay=tuple(meta['replay']) if isinstance(meta.get('replay'), list) else 'direct')
+        ok, how, excerpt, tp = replay(work, q, dict(meta['defs']), meta['entry'], tape, 'replay')
+        print('replay of %s: %s (%s)' % (path, 'VIOLATION REPRODUCED' if ok else 'no failure', how))
+        print(excerpt[:1500])
+        if ok: print('VIOLATION property=%s replay=%s' % (pid, path))
+        return 1 if ok else 0
     finally:
         work.cleanup()
